@@ -54,8 +54,23 @@ func (fr *Frame) instr(in ssa.Instruction, h Heap) Heap {
 		el := x.Type().(*types.Pointer).Elem()
 		a := &Addr{Base: r, T: el}
 		fr.vals[x] = &Val{T: r, A: a}
-		if !x.Heap && fr.top {
+		if fr.top && (!x.Heap || finalCell(x)) {
 			fr.private = append(fr.private, privAlloc{ref: r, t: el})
+		}
+		// ghost state of a protocol instance starts at zero (nobody holds a role of a fresh object)
+		if nt, ok := el.(*types.Named); ok && nt.Obj().Pkg() != nil {
+			for _, pr := range g.P.Contracts.Protocols {
+				if pr.Struct != nt.Obj().Name() || pr.PkgPath != nt.Obj().Pkg().Path() {
+					continue
+				}
+				env := fr.newSpecEnv(nh, nh)
+				for _, gn := range pr.Ghosts {
+					if gh := g.P.Contracts.Ghosts[gn]; gh != nil {
+						name, srt, _, _ := env.ghostName(gh)
+						fr.assume(fmt.Sprintf("(= (select %s %s) %s)", g.heapArr(nh, name, srt), r, g.ilit(0)), "ghost "+gn+" of a freshly allocated "+pr.Struct+" is zero")
+					}
+				}
+			}
 		}
 		// zero-initialise
 		if at, ok := el.Underlying().(*types.Array); ok {
@@ -138,6 +153,23 @@ func (fr *Frame) instr(in ssa.Instruction, h Heap) Heap {
 		return fr.convert(x, h)
 	case *ssa.ChangeType:
 		v := fr.val(x.X)
+		if v.T != "" && g.sortOf(x.X.Type()) != g.sortOf(x.Type()) {
+			// conversion between distinct named struct types with identical underlying types
+			// (gen.Alias(ref)): rebuild the value field by field
+			if st, ok := x.Type().Underlying().(*types.Struct); ok && !g.isOpaqueStruct(x.Type()) && !g.isOpaqueStruct(x.X.Type()) {
+				g.sortOf(x.Type())
+				var parts []string
+				for i := 0; i < st.NumFields(); i++ {
+					parts = append(parts, g.getPath(v.T, x.X.Type(), []Sel{{Field: i, StructT: x.X.Type()}}))
+				}
+				t := "mk$" + g.structName(x.Type())
+				if len(parts) > 0 {
+					t = fmt.Sprintf("(%s %s)", t, strings.Join(parts, " "))
+				}
+				fr.vals[x] = &Val{T: g.define(fr.prefix+x.Name(), g.sortOf(x.Type()), t)}
+				return h
+			}
+		}
 		fr.vals[x] = &Val{T: v.T, A: v.A, Tup: v.Tup}
 		return h
 	case *ssa.MultiConvert:
